@@ -201,3 +201,29 @@ func (s *scen) qiSpend(idx int) *types.Transaction {
 	}
 	return nil
 }
+
+// qiSpendDenom spends the nth unlocked output of denomination d owned by key `owner` into one
+// output of denomination outDenom paid to toAddr (the difference is the fee). nil if none.
+func (s *scen) qiSpendDenom(owner *core.VKey, d uint8, nth int, toAddr []byte, outDenom uint8) *types.Transaction {
+	utxos, err := core.VScanUtxos(s.n.DB[2])
+	if err != nil {
+		return nil
+	}
+	height := s.n.Heads[2].NumberU64(2) + 1
+	cnt := 0
+	for _, u := range utxos {
+		if string(u.Entry.Address) != string(owner.Addr.Bytes()) || u.Entry.Denomination != d {
+			continue
+		}
+		if u.Entry.Lock != nil && u.Entry.Lock.Uint64() > height {
+			continue
+		}
+		if cnt == nth {
+			to := common.BytesToAddress(toAddr, core.VZoneLoc)
+			outs := []core.VQiOut{{Denom: outDenom, Addr: to}}
+			return core.VQiTx(s.n.ChainID(), core.VZoneLoc, []core.VQiIn{{Hash: u.Hash, Index: u.Index, Key: owner}}, outs, nil, owner)
+		}
+		cnt++
+	}
+	return nil
+}
